@@ -168,6 +168,7 @@ class State:
         self.pathconds = []
         self.stops = []
         self.sink = None
+        self.subcache = {}   # (row id, offset id) -> shifted-sequence constant
 
     def copy(self):
         s = State.__new__(State)
@@ -192,6 +193,7 @@ class State:
         s.pathconds = list(self.pathconds)
         s.stops = list(self.stops)
         s.sink = None
+        s.subcache = dict(self.subcache)
         return s
 
     def with_sink(self, sink):
@@ -199,6 +201,7 @@ class State:
         s = State.__new__(State)
         s.__dict__.update(self.__dict__)
         s.sink = sink
+        s.subcache = dict(self.subcache)
         return s
 
     # ---- assumptions
